@@ -267,6 +267,10 @@ class Ctx:
         propagated to Hypothesis, so that shrinking cannot drift from one root
         cause to another.  Failures of other clauses are kept unshrunk, one each."""
         state["n_fail"] += 1
+        # a failing case is an executed, non-trivial case
+        self.stats.evaluations += 1
+        self.stats.nontrivial.add(spec_hash(spec))
+        self.stats.labels["failing-cases-incl-shrinking"] += 1
         if state["first_t"] is None:
             state["first_t"] = time.monotonic()
         if state["clause"] is None:
